@@ -305,33 +305,86 @@ structure Node where
   chain : Chain
   bc : BlockCache := {}
   cc : ConfirmCache := []
-  /-- heights asked from peers (`RequestBlocks(h-1, h-1)`), newest first; observation only -/
+  /-- heights asked from peers (`RequestBlocks(h-1, h-1)`), newest first -/
   requests : List Nat := []
+  /-- highest `lstStatus.CurHeight` over the connected peers (a peer's status is raised to the height of
+      every block it sends); all that `BestToSync` needs: some peer is above `h` iff `peerMax > h` -/
+  peerMax : Nat := 0
   deriving Repr, Inhabited
 
-/-- `pm.insertBlock`: pop the early confirms, then `chain.InsertBlock` -/
-def pmInsert (n : Node) (b : Blk) : Node × Bool :=
-  let p := ccPop b.height b.hash n.cc
-  match insertBlock n.chain b (p.1.map (·.sig)) with
-  | some ch => ({ n with chain := ch, cc := p.2 }, true)
-  | none => ({ n with cc := p.2 }, false)
+/-- `Iterate` since commit 6f06589 drops the entries the callback emptied.  (The Go code decides entry by
+    entry right after visiting it; on an alias-free cache — the only caches the repaired code can reach —
+    that is the same as dropping the empty entries at the end.) -/
+def pruneEmpty (c : BlockCache) : BlockCache :=
+  { c with cache := c.cache.filter (fun e => !e.blocks.isEmpty) }
 
-/-- body of `case rcvMsg := <-pm.rcvBlocksCh` (black lists are empty in the model) -/
-def rcvBlocks (addF : Blk → BlockCache → BlockCache) (q : Nat) : Node → List Blk → Node
+/-- `prune = false`: `Iterate` before commit 6f06589 -/
+def iterateP {σ : Type} (prune : Bool) (f : σ → Blk → σ × Bool) (s : σ) (c : BlockCache) :
+    σ × BlockCache × List (Nat × List Blk) :=
+  let r := iterate f s c
+  if prune then (r.1, pruneEmpty r.2.1, r.2.2) else r
+
+/-- `pm.insertBlock`: pop the early confirms, `chain.InsertBlock`, then (since commit 8f95517, `fix = true`)
+    `flushLateConfirms`.  `late` = confirms the peer goroutine handles WHILE `InsertBlock` is running:
+    `HasBlock` is still false, so `handleConfirmMsg` pushes them — after the pop.  A sequential run has
+    `late = []`. -/
+def pmInsertG (fix : Bool) (late : List Confirm) (n : Node) (b : Blk) : Node × Bool :=
+  let p := ccPop b.height b.hash n.cc
+  let cc1 := late.foldl (fun c d => ccPushLive 10240 d c) p.2
+  match insertBlock n.chain b (p.1.map (·.sig)) with
+  | some ch =>
+    if fix then
+      let p2 := ccPop b.height b.hash cc1
+      ({ n with chain := { ch with attached := ch.attached ++ p2.1.map (fun d => (b.hash, d.sig)) }, cc := p2.2 }, true)
+    else ({ n with chain := ch, cc := cc1 }, true)
+  | none =>
+    -- the confirms popped first are gone with the rejected block object
+    if fix && hasBlock n.chain b.hash then
+      let p2 := ccPop b.height b.hash cc1
+      ({ n with chain := { n.chain with attached := n.chain.attached ++ p2.1.map (fun d => (b.hash, d.sig)) },
+                cc := p2.2 }, false)
+    else ({ n with cc := cc1 }, false)
+
+/-- `pm.insertBlock` of the current code in a sequential run -/
+def pmInsert (n : Node) (b : Blk) : Node × Bool := pmInsertG true [] n b
+
+/-- body of `case rcvMsg := <-pm.rcvBlocksCh` (black lists are empty in the model).
+    `victim = some h`: the schedule in which the timer's `go pm.insertBlock` of block `h` completes between
+    the loop's `HasBlock(h)` check and the loop's own `InsertBlock(h)`; `none` = sequential run.
+    `fix = false`: before commit 2ae7988 every insert error aborted the message. -/
+def rcvBlocksG (fix : Bool) (victim : Option Nat) (addF : Blk → BlockCache → BlockCache) (q : Nat) :
+    Node → List Blk → Node
   | n, [] => n
   | n, b :: rest =>
-    if b.height ≤ stableHeight q n.chain || hasBlock n.chain b.hash then rcvBlocks addF q n rest
+    let n := { n with peerMax := max n.peerMax b.height }
+    if b.height ≤ stableHeight q n.chain || hasBlock n.chain b.hash then rcvBlocksG fix victim addF q n rest
     else if hasBlock n.chain b.parent then
-      let r := pmInsert n b
-      if r.2 then rcvBlocks addF q r.1 rest else r.1
+      let n1 : Node := if victim = some b.hash then (pmInsertG fix [] n b).1 else n
+      let r := pmInsertG fix [] n1 b
+      if r.2 then rcvBlocksG fix victim addF q r.1 rest
+      else if fix && hasBlock r.1.chain b.hash then rcvBlocksG fix victim addF q r.1 rest
+      else r.1
     else if b.height ≤ 1 then n
-    else rcvBlocks addF q { n with bc := addF b n.bc, requests := (b.height - 1) :: n.requests } rest
+    else rcvBlocksG fix victim addF q { n with bc := addF b n.bc, requests := (b.height - 1) :: n.requests } rest
 
-/-- `handleConfirmMsg` -/
+/-- the receive loop of the current code in a sequential run -/
+def rcvBlocks (addF : Blk → BlockCache → BlockCache) (q : Nat) : Node → List Blk → Node :=
+  rcvBlocksG true none addF q
+
+/-- `handleConfirmMsg` (sequential run: the `flushLateConfirms` after the push sees the same `HasBlock = false`) -/
 def rcvConfirm (n : Node) (d : Confirm) : Node :=
   if hasBlock n.chain d.hash then
     { n with chain := { n.chain with attached := n.chain.attached ++ [(d.hash, d.sig)] } }
-  else { n with cc := ccPush d n.cc }
+  else { n with cc := ccPushLive 10240 d n.cc }
+
+/-- `handleConfirmMsg` whose `HasBlock` check answered false BEFORE the block went in and whose `Push` happens
+    after `pm.insertBlock` returned (`n` = the node after the insert).  `fix`: commit 8f95517. -/
+def rcvConfirmStale (fix : Bool) (n : Node) (d : Confirm) : Node :=
+  let cc1 := ccPushLive 10240 d n.cc
+  if fix && hasBlock n.chain d.hash then
+    let p := ccPop d.height d.hash cc1
+    { n with chain := { n.chain with attached := n.chain.attached ++ p.1.map (fun x => (d.hash, x.sig)) }, cc := p.2 }
+  else { n with cc := cc1 }
 
 /-- `processBlock` of the timer case when the spawned `go pm.insertBlock(block)` runs at once -/
 def tickNow (n : Node) (b : Blk) : Node × Bool :=
@@ -342,16 +395,23 @@ def tickNow (n : Node) (b : Blk) : Node × Bool :=
 def tickLater (ch : Chain) (pend : List Blk) (b : Blk) : List Blk × Bool :=
   if hasBlock ch b.parent then (pend ++ [b], true) else (pend, false)
 
-/-- `case <-queueTimer.C` -/
-def tick (async : Bool) (n : Node) : Node :=
+/-- `case <-queueTimer.C`.  `prune`: commit 6f06589.  `eqSync`: commit 2d092b8 (`BestToSync(FirstHeight()-1)`
+    instead of `BestToSync(FirstHeight())`). -/
+def tickG (prune eqSync : Bool) (async : Bool) (n : Node) : Node :=
   let n' :=
     if async then
-      let r := iterate (fun pend b => tickLater n.chain pend b) [] n.bc
+      let r := iterateP prune (fun pend b => tickLater n.chain pend b) [] n.bc
       r.1.foldl (fun m b => (pmInsert m b).1) { n with bc := r.2.1 }
     else
-      let r := iterate tickNow n n.bc
+      let r := iterateP prune tickNow n n.bc
       { r.1 with bc := r.2.1 }
-  if size n'.bc > 0 then { n' with requests := (firstHeight n'.bc - 1) :: n'.requests } else n'
+  let fh := firstHeight n'.bc
+  if size n'.bc > 0 && (if eqSync then decide (n'.peerMax > fh - 1) else decide (n'.peerMax > fh)) then
+    { n' with requests := (fh - 1) :: n'.requests }
+  else n'
+
+/-- the drain timer of the current code -/
+def tick (async : Bool) (n : Node) : Node := tickG true true async n
 
 /-- `stableBlockLoop`: `confirmsCache.Clear(h); blockCache.Clear(h)` for a stable height `h` -/
 def onStable (h : Nat) (n : Node) : Node :=
